@@ -158,6 +158,13 @@ func isOriented(g *GC) bool {
 // legitimately omits atoms the first arm spells out (the side is implied by the tree invariants at that point).
 // orientedOnly restricts the check to commands guarded by a comparator sign (the ==0 arm of a removal is asymmetric by design).
 func selfCheck(c *Ctx, f *ssa.Function, mu *Mu, orientedOnly bool) (ok bool, undecided bool, facts string) {
+	return selfCheckOpts(c, f, mu, orientedOnly, true)
+}
+
+// selfCheckOpts: with guardsToo == false only the closure of the effect classes under μ is required (every effect
+// sequence has its mirror image somewhere in the function) — the reading for a function into which several cases were
+// folded, whose paths accumulate the guards of all of them.
+func selfCheckOpts(c *Ctx, f *ssa.Function, mu *Mu, orientedOnly, guardsToo bool) (ok bool, undecided bool, facts string) {
 	gf := c.GC(f)
 	if gf.Undecided != "" {
 		return false, true, "normal form not built: " + gf.Undecided
@@ -189,7 +196,13 @@ func selfCheck(c *Ctx, f *ssa.Function, mu *Mu, orientedOnly bool) (ok bool, und
 			return false, false, "the arms are not mirror images: the mirror image of these effects occurs nowhere in the function\n  command   : " + trunc(xs[0].String(), 700) + "\n  μ(effects): " + trunc(mk, 700)
 		}
 		matched := ""
+		if !guardsToo {
+			matched = "sub"
+		}
 		for _, x := range xs {
+			if matched != "" {
+				break
+			}
 			mx := canonAllocs(mu.applyGC(x))
 			ms := mx.String()
 			pm := posAtoms(mx)
@@ -303,7 +316,7 @@ func ruleR10(c *Ctx) *RuleResult {
 				sort.Strings(names)
 				var all []string
 				for _, nm := range names {
-					ok, und, facts := selfCheck(c, ms[nm], mu, orientedOnly)
+					ok, und, facts := selfCheckOpts(c, ms[nm], mu, orientedOnly, false)
 					switch {
 					case und:
 						r.undecided(key, clause, p.FuncPos(ms[nm]), nm+": "+facts)
@@ -314,7 +327,7 @@ func ruleR10(c *Ctx) *RuleResult {
 					}
 					all = append(all, nm)
 				}
-				r.ok(key, clause, p.FuncPos(ms[fam.entry]), "case "+a+" is not a function of its own in this tree; every remaining member of the chain is its own mirror image: "+strings.Join(all, ", "))
+				r.ok(key, clause, p.FuncPos(ms[fam.entry]), "case "+a+" is not a function of its own in this tree; in every remaining member of the chain every effect sequence has its mirror image (the conditions are the whole-chain skeleton's business): "+strings.Join(all, ", "))
 				return
 			}
 		}
